@@ -34,6 +34,8 @@ type Opts struct {
 	Contexts      int  // maximal number of context parameters
 	ConvArg       bool // custom functions may take the converter as first argument
 	UseUnderlying bool // may use useUnderlyingTypeMethods
+	Format        string // "" (struct) | function | variable
+	PkgNames      bool   // unusual package names / paths for the type packages
 	PtrHeavy      bool // favour pointer shapes incl. double pointers on either side
 	AlwaysErr     bool // every declared method returns error
 	ErrMismatch   bool // inject one fallible function although no method returns error
@@ -73,6 +75,7 @@ type Builder struct {
 	comparableOnly bool // only comparable types (F-ZERO-NONCOMPARABLE)
 	noNillable     bool // no pointer / slice / map members (F-UPDATE-NESTED-STALE)
 	inUpdate       bool
+	NoUnnamedUnexported bool
 	OpenNonComparable bool
 	OpenNestedStale   bool
 	OpenNilPtrSub     bool // F-UPDATE-NILLABLE-CALL
@@ -121,9 +124,25 @@ func New(rt *rapid.T, o Opts) *Builder {
 		b.C = &spec.Package{Key: "conv", Path: "conv", Name: "conv"}
 		b.Prog.Pkgs = []*spec.Package{b.A, b.B, b.C}
 	}
+	if o.PkgNames && !o.SamePkg {
+		names := []struct{ path, name string }{{"fmt", "fmt"}, {"model/v1", "model"}, {"generated", "generated"}, {"errors", "errors"}, {"api-types", "apitypes"}, {"x/strings", "strings"}, {"b2", "b2"}}
+		pa := names[rapid.IntRange(0, len(names)-1).Draw(rt, "pkg-a")]
+		pb := names[rapid.IntRange(0, len(names)-1).Draw(rt, "pkg-b")]
+		if pa.path != pb.path {
+			b.A.Path, b.A.Name = pa.path, pa.name
+			b.B.Path, b.B.Name = pb.path, pb.name
+		}
+	}
 	b.SC = &spec.Converter{Name: "Converter"}
 	b.C.Converters = []*spec.Converter{b.SC}
 	b.Conv = &model.Conv{Prog: b.Prog, ConvPkg: "conv", OutPkg: "conv/generated"}
+	switch o.Format {
+	case "function":
+		b.SC.Doc = append(b.SC.Doc, "output:format function")
+	case "variable":
+		b.SC.Vars = true
+		b.Conv.OutPkg = "conv"
+	}
 	if o.SkipCopy {
 		b.Conv.Settings.SkipCopy = true
 	}
@@ -157,7 +176,9 @@ func New(rt *rapid.T, o Opts) *Builder {
 	}
 	if o.SamePkg {
 		b.Conv.OutPkg = "conv"
-		b.SC.Doc = append(b.SC.Doc, "output:file ./generated.go", "output:package example.com/m/conv")
+		if o.Format != "variable" {
+			b.SC.Doc = append(b.SC.Doc, "output:file ./generated.go", "output:package example.com/m/conv")
+		}
 	}
 	return b
 }
@@ -620,7 +641,7 @@ func (b *Builder) newFunc(s, t *spec.T, withSource bool) *model.Func {
 	f := &model.Func{Name: name, Target: t}
 	fd := &spec.FuncDecl{Name: name, Results: []*spec.T{t}}
 	args := []string{}
-	if b.O.ConvArg && b.chance(25, "conv-arg") {
+	if b.O.ConvArg && b.O.Format == "" && b.chance(25, "conv-arg") {
 		fd.Params = append(fd.Params, spec.Param{Name: "c", T: spec.Named(b.C.Key, "Converter")})
 		args = append(args, "c != nil")
 		b.label("func:converter-arg")
@@ -811,7 +832,13 @@ func (b *Builder) fields(depth int, own *model.Method, sd *spec.TypeDecl) ([]spe
 			}
 		}
 		if b.O.Unexported {
-			variants = append(variants, "unexported")
+			if sd == nil && !b.O.SamePkg && b.NoUnnamedUnexported {
+				// unnamed struct types with unexported fields cannot be spelled in another
+				// package (known finding F-UNNAMED-UNEXPORTED)
+				b.label("excluded:F-UNNAMED-UNEXPORTED")
+			} else {
+				variants = append(variants, "unexported")
+			}
 		}
 		if b.want("missing") {
 			variants = append(variants, "defect-missing", "defect-missing")
